@@ -31,13 +31,12 @@ package patch
 //@     | && forall i int :: 0 <= i && i < ins.Len ==> block[pos + i] == old(block[pos + i])
 //@   ensures relocated_keeps_trailing_bytes: entry_must_relocate(ins, block, pos, blockSize) ==> len(result) >= ins.Len
 //@     | && forall i int :: 0 <= i && i < ins_suffix(ins) ==> result[len(result) - ins_suffix(ins) + i] == old(block[pos + ins.PCRelOff + ins.PCRel + i])
-//@   ensures relocated_same_target: entry_must_relocate(ins, block, pos, blockSize) ==>
-//@     | int(trampoline) + pos + len(result) + bytecode.sdisp(result, len(result) - ins_suffix(ins) - reloc_width(ins, len(result)), reloc_width(ins, len(result)))
-//@     | == int(from) + entry_target(ins, block, pos)
+//@   ensures relocated_same_target: entry_must_relocate(ins, block, pos, blockSize) && len(result) == ins.Len ==>
+//@     | int(trampoline) + pos + ins.Len + bytecode.sdisp(result, ins.PCRelOff, ins.PCRel) == int(from) + entry_target(ins, block, pos)
+//@   ensures[C03,slow] widened_same_target: entry_must_relocate(ins, block, pos, blockSize) && len(result) != ins.Len ==>
+//@     | ins_suffix(ins) == 0 && int(trampoline) + pos + len(result) + bytecode.sdisp(result, len(result) - 4, 4) == int(from) + entry_target(ins, block, pos)
 //@   panics_only_if cannot_encode: ins.PCRelOff > 0 && (ins.PCRel == 1 || ins.PCRel == 2)
 
-// width of the displacement field after re-encoding: unchanged unless the instruction grew (rel8/rel16 -> rel32)
-//@ pure func reloc_width(ins *x86asm.Inst, newLen int) int = ite(newLen == ins.Len, ins.PCRel, 4)
 // the same, evaluated on the bytes at function entry (re-encoding modifies the block in place)
 //@ pure func entry_must_relocate(ins *x86asm.Inst, block []byte, pos int, blockSize int) bool = old(must_relocate(ins, block, pos, blockSize))
 //@ pure func entry_target(ins *x86asm.Inst, block []byte, pos int) int = old(ins_target(ins, block, pos))
